@@ -472,8 +472,7 @@ def filter_lines(ctx, stream, spec, f):
     if spec[0] == 'trap':
         line = 'trap %s %s' % (f2b(spec[1]), f2b(spec[2]))
     else:
-        w = sorted(spec[1])
-        line = 'filter %s %s' % (f2b(w[0]), f2b(w[-1]))
+        line = 'filtertab %d %s' % (len(spec[1]), fs(spec[1]))       # as tabulated (unsorted): the model sorts
 
     def chk(out, got=got):
         m = [b2f(t) for t in out.split()]
@@ -755,6 +754,136 @@ def valid_cases(ctx, stream, n):
     r = _R()
     r.inst, r.cname, r.params = inst, 'Spectrometer', dict(wavelength_to_pixel=[], min_bins_per_pixel=1)
     value_lines(ctx, r, stream)
+
+
+# ------------------------------------------------------------------------------------------------ value-level machine (Part C)
+def machine_histories(ctx, stream, n):
+    """K for `ctStep` (Model/Instruments.lean Part C): the same history on a real CzernyTurnerSpectrometer and on the
+    value-level machine; cos/tan of the stored angle are handed to the model as numpy computed them.  Kinds of result
+    (done / ValueError / number / arrays / names) must agree exactly, numbers to 1e-9 (numpy's `**2` is not `x*x`),
+    the bin count exactly when the pixel edges agree bit for bit and within 1 otherwise (counted)."""
+    from raysect.optical import Spectrum
+    from cherab.tools.spectroscopy import CzernyTurnerSpectrometer
+    rng = ctx.rng
+    setters = ['diffraction_order', 'grating', 'focal_length', 'pixel_spacing', 'diffraction_angle', 'accommodated_spectra',
+               'min_bins_per_pixel', 'name']
+    opname = dict(diffraction_order='setOrder', grating='setGrating', focal_length='setFocal', pixel_spacing='setSpacing',
+                  min_bins_per_pixel='setMbpp')
+    for it in range(n):
+        ps = {k: gen_value(rng, k) for k in setters}
+        inst = CzernyTurnerSpectrometer(ps['diffraction_order'], ps['grating'], ps['focal_length'], ps['pixel_spacing'],
+                                        ps['diffraction_angle'], tuple(tuple(a) for a in ps['accommodated_spectra']),
+                                        ps['min_bins_per_pixel'], ps['name'])
+        ang = float(inst._diffraction_angle)
+        hist = [['new', dict(ps)]]
+        acc = ps['accommodated_spectra']
+        line = 'ctm new %d %s %d %s %d %s' % (ps['diffraction_order'], fs([ps['grating'], ps['focal_length'], ps['pixel_spacing'], ang,
+                                                                          float(np.cos(ang)), float(np.tan(ang))]),
+                                              ps['min_bins_per_pixel'], hexs(ps['name']), len(acc),
+                                              ' '.join('%s %d' % (f2b(a), b) for a, b in acc))
+        stream.add(line, _mchk('done', None, hist, True), 'machine')
+        exact = [True]
+        for _ in range(rng.randint(2, 10)):
+            k = rng.random()
+            if k < 0.45:
+                prop = rng.choice(setters)
+                bad = rng.random() < 0.2 and prop in BAD
+                val = rng.choice(BAD[prop]) if bad else gen_value(rng, prop, ps[prop])
+                if bad and isinstance(val, str):
+                    continue
+                try:
+                    setattr(inst, prop, tuple(tuple(a) for a in val) if prop == 'accommodated_spectra' else val)
+                    real = 'done'
+                    ps[prop] = val
+                except ValueError:
+                    real = 'ValueError'
+                except Exception:  # noqa
+                    continue
+                hist.append(['set', prop, val])
+                if prop == 'diffraction_angle':
+                    a = float(np.deg2rad(val))
+                    line = 'ctm setAngle %s' % fs([a, float(np.cos(a)), float(np.tan(a))])
+                elif prop == 'accommodated_spectra':
+                    line = 'ctm setAcc %d %s' % (len(val), ' '.join('%s %d' % (f2b(a), max(int(b), 0)) for a, b in val))
+                    if any(int(b) < 0 for _, b in val):
+                        continue
+                elif prop == 'name':
+                    line = 'ctm setName %s' % hexs(val)
+                elif prop in ('diffraction_order', 'min_bins_per_pixel'):
+                    line = 'ctm %s %d' % (opname[prop], max(int(val), 0))
+                else:
+                    line = 'ctm %s %s' % (opname[prop], f2b(val))
+                stream.add(line, _mchk(real, None, list(hist), True), 'machine')
+                ctx.count('machine:set' + (':rejected' if real != 'done' else ''))
+            elif k < 0.9:
+                g = rng.choice(['getMin', 'getMax', 'getBins', 'getW2p', 'getWavelengths', 'getKwargs'])
+                hist.append(['get', g])
+                if g == 'getMin':
+                    real, v = 'num', float(inst.min_wavelength)
+                elif g == 'getMax':
+                    real, v = 'num', float(inst.max_wavelength)
+                elif g == 'getBins':
+                    real, v = 'int', int(inst.spectral_bins)
+                elif g == 'getW2p':
+                    real, v = 'arrays', [[float(x) for x in a] for a in inst.wavelength_to_pixel]
+                elif g == 'getWavelengths':
+                    real, v = 'arrays', [[float(x) for x in a] for a in inst.wavelengths]
+                else:
+                    real, v = 'names', [d['name'] for d in inst.pipeline_kwargs]
+                stream.add('ctm ' + g, _mchk(real, v, list(hist), exact), 'machine')
+                ctx.count('machine:get')
+            else:
+                lo, hi = float(inst.min_wavelength), float(inst.max_wavelength)
+                narrow = rng.random() < 0.3
+                smin, smax = (lo + 0.01, hi + 1.0) if narrow else (lo - 1.0, hi + 1.0)
+                sp = Spectrum(smin, smax, 7)
+                sp.samples[:] = 2.5
+                hist.append(['calibrate', 2.5, smin, smax])
+                try:
+                    real, v = 'arrays', [[float(x) for x in a] for a in inst.calibrate(sp)]
+                except ValueError:
+                    real, v = 'ValueError', None
+                stream.add('ctm calib %s' % fs([2.5, smin, smax]), _mchk(real, v, list(hist), exact), 'machine')
+                ctx.count('machine:calibrate')
+        ctx.case(key=('machine', json.dumps(hist, default=str)[:300]))
+
+
+def _mchk(real, val, hist, exact):
+    def chk(out):
+        t = out.split()
+        if not t or t[0] != real:
+            return 'machine: model %s, implementation %s' % (out[:80], real)
+        if real == 'num':
+            return None if close(b2f(t[1]), val, 1e-9) else 'machine: model %r implementation %r' % (b2f(t[1]), val)
+        if real == 'int':
+            d = abs(int(t[1]) - val)
+            if d == 0:
+                return None
+            if d <= 1:
+                return None if _note_inexact() else None
+            return 'machine: bins model %s implementation %s' % (t[1], val)
+        if real == 'names':
+            m = [bytes.fromhex(x).decode() if x != '-' else '' for x in t[1:]]
+            return None if m == val else 'machine: names model %r implementation %r' % (m, val)
+        if real == 'arrays':
+            flat, i, arrs = t[1:], 0, []
+            while i < len(flat):
+                k = int(flat[i])
+                arrs.append([b2f(x) for x in flat[i + 1:i + 1 + k]])
+                i += 1 + k
+            ok = len(arrs) == len(val) and all(len(a) == len(b) and all(close(x, y, 1e-9) for x, y in zip(a, b)) for a, b in zip(arrs, val))
+            return None if ok else 'machine: arrays model %r implementation %r' % (arrs[:1], val[:1])
+        return None
+    chk.history, chk.what = hist, 'value-level machine'
+    return chk
+
+
+INEXACT = [0]
+
+
+def _note_inexact():
+    INEXACT[0] += 1
+    return True
 
 
 # ------------------------------------------------------------------------------------------------ aliasing histories
@@ -1140,6 +1269,8 @@ def run(ctx):
         filter_lines(ctx, stream, spec, make_filter(spec))
     calibrate_cases(ctx, stream, ctx.n(150, 6000))
     valid_cases(ctx, stream, ctx.n(150, 5000))
+    INEXACT[0] = 0
+    machine_histories(ctx, stream, ctx.n(60, 1500))
 
     # 4. run the model on everything that was recorded
     outs = ctx.driver(stream.lines)
@@ -1154,6 +1285,7 @@ def run(ctx):
                 seen.add(name)
                 ctx.broke('correspondence', 'C16 stream ' + name, dict(line=line[:400], model=out[:400], why=why,
                                                                        what=getattr(chk, 'what', ''), history=getattr(chk, 'history', None)))
+    ctx.count('machine:bins-off-by-one-within-float-gap', INEXACT[0])
     # a broken table obligation whose concrete counterpart S has reported as an *open known finding* is explained
     if ctx.known_hits and not ctx.failing:
         for b in ctx.broken:
